@@ -1,6 +1,7 @@
 package props
 
 import (
+	"bytes"
 	"fmt"
 	"math/big"
 	"strings"
@@ -169,6 +170,21 @@ func genC03(t *rapid.T, ctx *Ctx) interface{} {
 		}
 		c.Note = "key-spellings"
 	}
+	if text && rapid.IntRange(0, 3).Draw(t, "relayout") == 0 {
+		// the same text laid out differently: the line breaks of the encoder's output (which fall between
+		// tokens, or inside a string / comment, where the result is simply another document) replaced by
+		// other white space or by comments. Only what the CTE decoder accepts is judged, as always.
+		var sb bytes.Buffer
+		for _, b := range doc {
+			if b == '\n' && rapid.IntRange(0, 2).Draw(t, "relayout.at") == 0 {
+				sb.WriteString(rapid.SampledFrom([]string{"\r\n", "\n\t", " ", "  \n", "\n// c\n", " /* c */ ", "\n\n", "\n/* a /* nested */ b */\n", "\t", "\n //\n"}).Draw(t, "relayout.ws"))
+				continue
+			}
+			sb.WriteByte(b)
+		}
+		doc = sb.Bytes()
+		c.Note += " relayout"
+	}
 	if rapid.IntRange(0, 3).Draw(t, "mutate") == 0 {
 		other, _, _ := encodeCBE(gen.Document(t, c03Opts(ctx, false)), cfg)
 		if text {
@@ -190,6 +206,7 @@ func c03Check(ci interface{}, ctx *Ctx) error {
 	ctx.LabelIf(strings.Contains(c.Note, "mutated"), "mutated")
 	ctx.LabelIf(strings.Contains(c.Note, "generator-rejected"), "generator-rejected")
 	ctx.LabelIf(strings.Contains(c.Note, "key-spellings"), "key-spellings")
+	ctx.LabelIf(strings.Contains(c.Note, "relayout"), "relayout")
 	doc := append([]byte{}, c.Doc...)
 	guard := func(what string, f func()) error {
 		o := ctx.Guard(f)
